@@ -1,5 +1,6 @@
 import LLRP.Model.Probe
 import LLRP.Props.C16
+import LLRP.Gen.ProbeFacts
 /-!
 # C17 — Discovery names readers by rule, skips live devices, ends in bounded time
 
@@ -272,5 +273,22 @@ example : (probeRun (Host.correct (some ⟨0, [1, 2, 0xAB, 0xCD, 0xEF]⟩) (some
 example : (probeRun (Host.correct (some ⟨1, [0xAB]⟩) none)).info = some ⟨"LLRP-ab", 0, 0, ""⟩ := by decide
 example : runFinished (runTicks 4 ⟨genInit 3232235886 24 4 4 false true true, [3, 0, 2]⟩) = true := by decide
 example : runFinished (runTicks 2 ⟨genInit 3232235886 24 4 4 false true true, [3, 0, 2]⟩) = false := by decide
+
+/-! ## what the source relies on beyond the per-message timeout (regenerated from `discover.go` on every run) -/
+
+/-- **probe_limits.** `probe_bounded` counts timeout periods: each stage of a probe ends when its read times out. A host
+that keeps the connection busy defeats every single read deadline; what bounds the probe then is the context of the
+exchange goroutine, which the source creates with `context.WithTimeout(_, sendTimeout)`; the dial and the client use the
+probe timeout; when the final graceful Shutdown fails the client is closed with no further condition (otherwise Connect,
+and with it the probe and the run, would never return). -/
+theorem probe_limits :
+    Gen.probe_ctxKind = "WithTimeout" ∧ Gen.probe_ctxArg = "sendTimeout" ∧
+    Gen.probe_clientTimeout = "timeout" ∧ Gen.probe_dialTimeout = "timeout" ∧
+    Gen.probe_shutdownErrCond = "err != nil && !errors.Is(err, llrp.ErrClientClosed)" ∧ Gen.probe_forceCloseGuard = "" := by
+  decide
+
+/-- **skip_cond.** `skip_rule` is about `shouldProbe registered up`; the source decides "up" by the operating state of the
+registered device alone (no other attribute, such as the administrative state, takes part). -/
+theorem skip_cond : Gen.probe_skipCond = "d.OperatingState == contract.Up" := by decide
 
 end LLRP.C17
